@@ -96,6 +96,23 @@ static void runCase(const std::string& id, const std::string& alg, i64 p1, i64 p
     sortRadix<int64_t>(x, got, want);
   } else if (alg == "sort_sz") {
     sortRadix<size_t>(x, got, want);
+  } else if (alg == "lsb_radix") {
+#if (MANIFOLD_PAR == 1)
+    // details::LSB_radix_sort directly: the return flag and BOTH buffers (intermediate state for the model)
+    std::vector<uint32_t> in(n), tmp(n, 0xFFFFFFFFu), sorted(n);
+    for (size_t i = 0; i < n; ++i) in[i] = sorted[i] = (uint32_t)x[i];
+    std::stable_sort(sorted.begin(), sorted.end());
+    bool flag = manifold::details::LSB_radix_sort(in.data(), tmp.data(), n);
+    got.push_back(flag ? 1 : 0);
+    for (auto e : in) got.push_back((i64)e);
+    for (auto e : tmp) got.push_back((i64)e);
+    want = got;
+    const std::vector<uint32_t>& res = flag ? tmp : in;
+    if (res != sorted) {  // the buffer the flag points to must hold the sorted keys
+      want.assign(1, flag ? 1 : 0);
+      for (auto e : sorted) want.push_back((i64)e);
+    }
+#endif
   } else if (alg == "mergerec") {
 #if (MANIFOLD_PAR == 1)
     std::vector<P> src;
@@ -138,6 +155,24 @@ static void runCase(const std::string& id, const std::string& alg, i64 p1, i64 p
     want.assign(n, -7);
     manifold::exclusive_scan(Par, x.begin(), x.end(), got.begin(), p1, f, identOf(p2));
     std::exclusive_scan(x.begin(), x.end(), want.begin(), p1, f);
+  } else if (alg == "exclusive_scan-inplace") {
+    // d_first == first: the documented "equal" case (in-tree: face_op.cpp, impl.cpp, quickhull.cpp)
+    auto f = opOf(p2);
+    got = x;
+    want = x;
+    manifold::exclusive_scan(Par, got.begin(), got.end(), got.begin(), p1, f, identOf(p2));
+    std::exclusive_scan(want.begin(), want.end(), want.begin(), p1, f);
+  } else if (alg == "inclusive_scan-inplace") {
+    got = x;
+    want = x;
+    manifold::inclusive_scan(Par, got.begin(), got.end(), got.begin());
+    std::inclusive_scan(want.begin(), want.end(), want.begin());
+  } else if (alg == "transform-inplace") {
+    auto f = [p1](i64 v) { return 3 * v + p1; };
+    got = x;
+    want = x;
+    manifold::transform(Par, got.begin(), got.end(), got.begin(), f);
+    std::transform(want.begin(), want.end(), want.begin(), f);
   } else if (alg == "copy_if") {
     i64 m = p1 < 1 ? 1 : p1;
     auto pr = [m](const P& e) { return e.key % m == 0; };
